@@ -6,7 +6,8 @@
 //           direction flag 1: the logger has Logger::direction besides Logger::sequence (default 0)
 //           optionally three more fields "<kind> <layout flags> <locs>,<locs>,...":
 //             kind F = FileLogger (default), X = XmlFileLogger, P = PipeLogger ("|cat > file")
-//             layout flags: any of m (mstart) s (sstart) t (thread) T (timestamp) M (minitimestamp) l (level) L (location), "-" = none
+//             layout flags: any of m (mstart) s (sstart) t (thread) T (timestamp) M (minitimestamp) l (level) L (location), "-" = none;
+//               Q = WITHOUT the sequence flag (the lines then carry no number; "Q" alone with direction 0: no prefix field at all)
 //             locs = per call '1': send() gets a file/line string "src.cpp:<call>", '0': nullptr (default)
 //           optionally a tenth field "<txts>,<txts>,...": per call the form of the text: '0' "<producer>.<call>" (default),
 //             'n' the same followed by "\n", 'e' "<producer>.<call>\nx<call>" (embedded line end), 'r' followed by "\r\n",
@@ -122,8 +123,10 @@ static std::string run_case(const std::string& line, unsigned caseno)
 	pn << g_dir << "/case" << caseno << ".log";
 	const std::string path(pn.str());
 
+	const bool noseq(has('Q'));
 	Logger::LogFlags flags;
-	flags << Logger::sequence;
+	if (!noseq)
+		flags << Logger::sequence;
 	if (dirflag)
 		flags << Logger::direction;
 	if (has('m')) flags << Logger::mstart;
@@ -262,49 +265,58 @@ static std::string run_case(const std::string& line, unsigned caseno)
 					return true;
 				};
 				std::string sq, dr, tx;
-				if (attr("sequence", sq) && attr("text", tx) && !sq.empty() && sq.size() <= 7
-					&& sq.find_first_not_of("0123456789") == std::string::npos && l.size() >= 2 && l.compare(l.size() - 2, 2, "/>") == 0
+				if ((noseq || (attr("sequence", sq) && !sq.empty() && sq.size() <= 7
+						&& sq.find_first_not_of("0123456789") == std::string::npos))
+					&& attr("text", tx) && l.size() >= 2 && l.compare(l.size() - 2, 2, "/>") == 0
 					&& (!dirflag || attr("direction", dr)))
 				{
-					canon = std::string(7 - sq.size(), '0') + sq + ' ' + (dirflag ? dr + ' ' : std::string()) + tx;
+					canon = (noseq ? std::string() : std::string(7 - sq.size(), '0') + sq + ' ') + (dirflag ? dr + ' ' : std::string()) + tx;
 					good = true;
 				}
 			}
-			else if (layout == "-")
+			else if (layout == "-" || layout == "Q")
 			{
 				canon = l;		// sequence [direction] text: the whole line, as it is
 				good = true;
 			}
 			else
 			{
-				// fields in the order mstart sstart sequence thread timestamp minitimestamp direction level location, then the text
+				// fields in the order mstart sstart sequence thread timestamp minitimestamp direction level location, then the text;
+				// a field that renders empty (location without a file/line string) is left out together with its delimiter
 				const size_t off((has('m') ? 12 : 0) + (has('s') ? 9 : 0));
 				const size_t sp(l.rfind(' '));
-				if (sp != std::string::npos && l.size() >= off + 8)
+				std::string tx(sp == std::string::npos ? l : l.substr(sp + 1));
+				std::string head(sp == std::string::npos ? std::string() : l.substr(0, sp));		// without the text and its delimiter
+				if (has('L'))
 				{
-					const std::string tx(l.substr(sp + 1)), sq(l.substr(off, 7));
-					std::string head(l.substr(0, sp));		// without the text and its delimiter
-					if (has('L'))
+					const size_t lp(head.rfind(' '));
+					const size_t st(lp == std::string::npos ? 0 : lp + 1);
+					if (head.compare(st, 8, "src.cpp:") == 0)
+						head.erase(lp == std::string::npos ? 0 : lp);
+				}
+				if (has('l') && head.size() >= 5)
+					head.erase(head.size() >= 6 ? head.size() - 6 : 0);		// "Info " and its delimiter
+				std::string dr, sq;
+				bool okf(true);
+				if (dirflag)
+				{
+					okf = head.size() >= 3;
+					if (okf)
+						dr = head.substr(head.size() - 3);
+				}
+				if (okf && !noseq)
+				{
+					okf = head.size() >= off + 7;
+					if (okf)
 					{
-						const size_t lp(head.rfind(' '));
-						if (lp != std::string::npos && head.compare(lp + 1, 8, "src.cpp:") == 0)
-							head.erase(lp);
+						sq = head.substr(off, 7);
+						okf = sq.find_first_not_of("0123456789") == std::string::npos;
 					}
-					if (has('l') && head.size() >= 6)
-						head.erase(head.size() - 6);		// "Info " and its delimiter
-					std::string dr;
-					bool okd(true);
-					if (dirflag)
-					{
-						okd = head.size() >= 3;
-						if (okd)
-							dr = head.substr(head.size() - 3);
-					}
-					if (okd && sq.find_first_not_of("0123456789") == std::string::npos)
-					{
-						canon = sq + ' ' + (dirflag ? dr + ' ' : std::string()) + tx;
-						good = true;
-					}
+				}
+				if (okf)
+				{
+					canon = (noseq ? std::string() : sq + ' ') + (dirflag ? dr + ' ' : std::string()) + tx;
+					good = true;
 				}
 			}
 			if (!good)
